@@ -11,6 +11,7 @@ import (
 	"fmt"
 	"strings"
 	"sync"
+	"sync/atomic"
 	"time"
 )
 
@@ -182,6 +183,13 @@ func (c *vbConn) clientWrote(mc *memConn, p []byte) error {
 		lose := b.fault(func(f *e4Fault) bool {
 			return f.Conn == c.id && f.After && ((f.Kind == "cut" && f.Pkt == j) || (f.Kind == "cutType" && f.Type == pk.Type && f.Nth == nth))
 		})
+		if f := b.fault(func(f *e4Fault) bool { return f.Conn == c.id && f.Kind == "stall" && f.Pkt == j }); f != nil {
+			// the peer stops answering and stops reading: this packet is still taken by the transport but never
+			// answered, every later Write blocks until the transport is closed
+			c.silent = true
+			atomic.StoreInt32(&mc.blockWrites, 1)
+			b.log.add(c.id, "STALL", nil, "")
+		}
 		b.log.add(c.id, "W", &pk, "")
 		c.process(pk, lose != nil)
 		if lose != nil {
@@ -499,7 +507,7 @@ func (d *vdialer) DialContext(ctx context.Context) (*BaseClient, error) {
 	if d.unsafe {
 		c.mc.unsafeMode, c.mc.yieldEvery = true, 2
 	}
-	cli := &BaseClient{Transport: c.mc}
+	cli := &BaseClient{Transport: c.mc.asTransport()}
 	cli.ConnState = func(s ConnState, err error) {
 		note := s.String()
 		if err != nil {
